@@ -371,7 +371,7 @@ func runC12(c *Ctx) error {
 	if err := c.runCorpus("C12-programs"); err != nil {
 		return err
 	}
-	c.Rep.Rule = "intmap: histories of Set/Assign/Get/Delete/Len/Copy/use over key pools that are sequential, colliding in the low bits, scattered or negative, on up to 4 tables related by Copy, the whole slot array (distance, key) compared with the model at dumps; half of the histories without Delete (the VM never deletes); struct-script: struct types with 0..200 fields (int and byte) and 0..120 methods, two instances and an alias, random field writes, compound updates, reads and method calls; host-struct: values built by the host with NewStruct (also twice from one initialiser slice) next to script-made instances; composite-fields: a struct with slice, map and pointer fields of different element types in random order, the declared type of every field's zero value observed through append / nil-map reads; struct-heap: the struct layer of the model (instances owning a copy of the type's field table, sharing its method table) against host-made and script-made instances, aliases, SetAttr/GetAttr, methods added by later evaluations and method values called through VM.Func, answers compared line by line; late-methods: instances, an alias and an instance of a defined type created while the type has m1 methods, further methods up to m2 (crossing the method table's growth thresholds) defined by later evaluations, then called on old and new instances; distinct = distinct history/script; non-trivial = history of more than 20 ops / more than 5 fields"
+	c.Rep.Rule = "intmap: histories of Set/Assign/Get/Delete/Len/Copy/use over key pools that are sequential, colliding in the low bits, scattered or negative, on up to 4 tables related by Copy, the whole slot array (distance, key) compared with the model at dumps; half of the histories without Delete (the VM never deletes); struct-script: struct types with 0..200 fields (int and byte) and 0..120 methods, two instances and an alias, random field writes, compound updates, reads and method calls; host-struct: values built by the host with NewStruct (also twice from one initialiser slice) next to script-made instances; composite-fields: a struct with slice, map and pointer fields of different element types in random order, the declared type of every field's zero value observed through append / nil-map reads; struct-heap: the struct layer of the model (instances owning a copy of the type's field table, sharing its method table) against host-made and script-made instances, aliases, SetAttr/GetAttr, methods added by later evaluations and method values called through VM.Func, answers compared line by line; type-object: 2..5 declarations of one struct type name (successive Evals on one VM, or local types of one name in nested blocks) with random field subsets, orders and types; the fields of &T{} in Order with their zero values after every declaration against the model's declare / sync; late-methods: instances, an alias and an instance of a defined type created while the type has m1 methods, further methods up to m2 (crossing the method table's growth thresholds) defined by later evaluations, then called on old and new instances; distinct = distinct history/script; non-trivial = history of more than 20 ops / more than 5 fields"
 	n, maxOps := 600, 120
 	if c.Thorough() {
 		n, maxOps = 30000, 400
@@ -413,6 +413,9 @@ func runC12(c *Ctx) error {
 		return err
 	}
 	if err := c.c12StructHeap(); err != nil {
+		return err
+	}
+	if err := c.c12TypeObject(); err != nil {
 		return err
 	}
 	c.c12LateMethods()
